@@ -139,7 +139,13 @@ CHECKS["C12"] = dict(
           "virtual-time asyncio loop against a simulated gateway with streams of valid, undecodable and unknown packets under "
           "hundreds of segmentations (whole, byte by byte, every single cut, random multi-cuts) x receive callbacks that succeed, "
           "raise or are slow; every session is judged by TLC against the framing model: exactly the decodable packets, once, in order, "
-          "each delivered as soon as its last byte was read."),
+          "each delivered as soon as its last byte was read. Streams in which packets repeat (identical frames, a fast-packet "
+          "message re-sent under the same sequence counter) are included. The composed specification N2KSystem (sender with "
+          "identifier, segmentation and wire rendering -> byte transport -> client re-framing, packet and identifier parsing, "
+          "decoder model with filters, source map and reassembly -> queue) is model-checked for a generated script (the wire is "
+          "transparent: deliveries are always a prefix of, and finally equal to, what the decoder model returns for the messages "
+          "handed over directly); TLC-generated behaviours choose the reads, the EByte and serial clients are run on them with "
+          "three decoder configurations, and the deliveries after every read are validated by TLC (Trace_System)."),
     note=("Trusted: TLC; the virtual-time loop (relies on Python 3.12 asyncio internals _ready/_scheduled/_run_once); a second decoder "
           "instance with the same settings as content oracle; real asyncio.StreamReader, fake writer."),
     design="5/C12",
